@@ -202,7 +202,8 @@ fn garbage(rng: &mut Rng) -> String {
 fn random_wire_faults(rng: &mut Rng) -> Vec<WireFault> {
     let mut v = Vec::new();
     for _ in 0..1 + rng.usize(2) {
-        v.push(match rng.usize(9) {
+        v.push(match rng.usize(10) {
+            9 => WireFault::Transport { kind: rng.usize(10) as u8, pos: rng.usize(4000) },
             8 => WireFault::JsonDupMember {
                 key: rng.pick(&["protected", "payload", "signature", "disclosures", "kb_jwt"]).to_string(),
                 value: rng.pick(&[json!("e30"), json!([]), json!(null), json!(""), json!(["WyJhIiwiYiJd"])]).clone(),
@@ -239,6 +240,33 @@ pub fn gen_hostile(rng: &mut Rng, _tier: Tier) -> HostileScn {
     let fmt = rand_fmt(rng);
     let hk = if rng.bool() { Some(msg_gen::holder_key(rng)) } else { None };
     ops.push(HOp::Issue { key: key.clone(), alg: alg.clone(), claims: claims.clone(), strat: if rng.bool() { Strat::All } else { gen::gen_strategy(rng, &claims) }, holder_key: hk.clone(), decoys: rng.bool(), fmt });
+    // 2b. the typed holder-key argument with unusual contents (every one of these deserialises
+    // into jsonwebtoken's Jwk): coordinates with a leading zero octet, too short, empty, other
+    // curves, other key types, extra parameters
+    {
+        let x33 = "AITrTPi-_Y_6PO4nMHK6qjkTF0qQIo9prCatjY5AjoI1";
+        let x31 = "60z4vv2P-jzuJzByuqo5ExdKkCKPaawmrY2OQI6INQ";
+        let cands = [
+            json!({"kty": "EC", "crv": "P-256", "x": x33, "y": x33}),
+            json!({"kty": "EC", "crv": "P-256", "x": x31, "y": x31}),
+            json!({"kty": "EC", "crv": "P-256", "x": "", "y": ""}),
+            json!({"kty": "EC", "crv": "P-256", "x": "!!", "y": "é"}),
+            json!({"kty": "EC", "crv": "P-384", "x": x31, "y": x33}),
+            json!({"kty": "EC", "crv": "P-521", "x": "A".repeat(200), "y": "B".repeat(3)}),
+            json!({"kty": "OKP", "crv": "Ed25519", "x": x33}),
+            json!({"kty": "OKP", "crv": "Ed25519", "x": ""}),
+            json!({"kty": "RSA", "n": "AQAB", "e": "AQAB"}),
+            json!({"kty": "RSA", "n": "A".repeat(700), "e": ""}),
+            json!({"kty": "oct", "k": "c2VjcmV0"}),
+            json!({"kty": "EC", "crv": "P-256", "x": x31, "y": x31, "kid": "k".repeat(300), "use": "sig", "alg": "ES256", "key_ops": ["verify"], "x5c": ["AAAA"], "x5t": "x"}),
+        ];
+        for _ in 0..2 {
+            let j = rng.pick(&cands).clone();
+            if serde_json::from_value::<jsonwebtoken::jwk::Jwk>(j.clone()).is_ok() {
+                ops.push(HOp::Issue { key: key.clone(), alg: alg.clone(), claims: claims.clone(), strat: Strat::Top, holder_key: Some(format!("jwk:{}", j)), decoys: rng.bool(), fmt: rand_fmt(rng) });
+            }
+        }
+    }
     // 2. hostile issuer inputs
     for _ in 0..2 + rng.usize(3) {
         let c = hostile_claims(rng, now);
